@@ -33,7 +33,7 @@ REQUIRED = [P + t for t in (
     "rasterizeEdges_rows", "addShape_eq_addSpans", "walkRows_inv", "rasterizeEdges_walked", "rasterizeEdges_eq_addShape",
     # R3 at the entry points: pixman_rasterize_trapezoid, pixman_add_traps (one pixman_trap_t)
     "rasterizeTrapezoid_eq_addShape", "addTrap_eq_addShape", "rasterizeTrapezoid_nothing", "rasterizeTrapezoid_offsets",
-    "addTrapezoids_eq_addShapes",
+    "addTrapezoids_eq_addShapes", "addTraps_eq_addShapes", "addTrap_offsets",
     # R5: triangle = its two trapezoids, every vertex order
     "triangle_tiles", "triangle_inside_iff", "addTriangles_eq", "addTriangle_eq_triCount",
     # R4
@@ -52,10 +52,10 @@ PARTIAL = {
                                       "has integral slope); outside it the equality is false for the code (findings T01..) and "
                                       "rasterizeEdges_walked gives the exact-invariant form with the lost term. Also proved: no sample row "
                                       "inside (rasterizeTrapezoid_nothing), offsets that do not wrap are a translation "
-                                      "(rasterizeTrapezoid_offsets, pixelCount_move), lists (addTrapezoids_eq_addShapes). Not stated: "
-                                      "pixman_add_traps with offsets / lists (one pixman_trap_t, offsets 0 only); a right-leaning edge "
-                                      "whose first sample row is exactly its top vertex (tie at that row) is outside RowsOK although "
-                                      "the walker is exact there; both covered by the Spec oracle",
+                                      "(rasterizeTrapezoid_offsets, addTrap_offsets, pixelCount_move), lists (addTrapezoids_eq_addShapes, "
+                                      "addTraps_eq_addShapes). Not covered by RowsOK although the walker is exact there: a right-leaning edge "
+                                      "of non-integral slope whose first sample row is exactly its top vertex (tie at that row); covered by the "
+                                      "Spec oracle",
     "triangle_tiles": "R5 is proved for every vertex order (sort by (y,x), left/right by the cross product sign, horizontal sides) "
                       "under TriFits (the int32 differences of clockwise() do not wrap) and area2 != 0; for collinear vertices the "
                       "equality with the symmetric inside test is false at lattice ties of the snapping (both draw nothing else); "
